@@ -36,6 +36,70 @@ pub fn real_parse(e: &'static EFmt, s: &str) -> PR<Narsese> {
     })
     .ok_or(())
 }
+/// index and env_slice of the ParseError of a rejected input, read from its (derived) Debug output
+/// `ParseError { message: "..", env_slice: ['a', '\n'], index: 3 }` (the fields are private)
+pub fn real_parse_error_at(e: &'static EFmt, s: &str) -> Option<(usize, Vec<char>)> {
+    let d = guard(|| e.parse::<Narsese>(s).err().map(|err| format!("{:?}", err)))??;
+    parse_error_debug(&d)
+}
+pub fn parse_error_debug(d: &str) -> Option<(usize, Vec<char>)> {
+    let ip = d.rfind("], index: ")?;
+    let index: usize = d[ip + 10..].trim_end_matches(|c: char| c == '}' || c == ' ').parse().ok()?;
+    let sp = d[..ip].rfind("env_slice: [")?;
+    let body: Vec<char> = d[sp + 12..ip].chars().collect();
+    let mut out = vec![];
+    let mut i = 0;
+    while i < body.len() {
+        if body[i] != '\'' {
+            return None;
+        }
+        i += 1;
+        let c = if *body.get(i)? == '\\' {
+            i += 1;
+            let e = *body.get(i)?;
+            i += 1;
+            match e {
+                'n' => '\n',
+                't' => '\t',
+                'r' => '\r',
+                '0' => '\0',
+                '\\' => '\\',
+                '\'' => '\'',
+                '"' => '"',
+                'u' => {
+                    if *body.get(i)? != '{' {
+                        return None;
+                    }
+                    i += 1;
+                    let mut v: u32 = 0;
+                    while *body.get(i)? != '}' {
+                        v = v * 16 + body[i].to_digit(16)?;
+                        i += 1;
+                    }
+                    i += 1;
+                    char::from_u32(v)?
+                }
+                _ => return None,
+            }
+        } else {
+            let c = body[i];
+            i += 1;
+            c
+        };
+        out.push(c);
+        if *body.get(i)? != '\'' {
+            return None;
+        }
+        i += 1;
+        if i < body.len() {
+            if body.get(i) != Some(&',') || body.get(i + 1) != Some(&' ') {
+                return None;
+            }
+            i += 2;
+        }
+    }
+    Some((index, out))
+}
 pub fn real_parse_chars(e: &'static EFmt, s: &str) -> PR<Narsese> {
     guard(|| match e.parse_chars::<Narsese>(s.chars().collect()) {
         Ok(v) => Some(v),
@@ -200,7 +264,15 @@ impl<'a> Ctx<'a> {
     }
     fn parse_case(&mut self, fm: &Fm, s: &str) -> PR<Narsese> {
         let r = real_parse(fm.e, s);
-        self.push(format!("EParse {} {} {}", fm.idx, cstr(s), eres(&r, cnarsese)), format!("parse[{}] {:?}", fm.name, s));
+        // a rejected input is compared together with the position and window of its error (EParseErrAt implies `Err`)
+        let at = if matches!(r, Ok(None)) { real_parse_error_at(fm.e, s) } else { None };
+        match at {
+            Some((index, window)) => {
+                self.rep.hist.add("error-position-compared".to_string());
+                self.push(format!("EParseErrAt {} {} {} {}", fm.idx, cstr(s), index, cchars(&window)), format!("parse[{}] {:?} (error @ {})", fm.name, s, index));
+            }
+            None => self.push(format!("EParse {} {} {}", fm.idx, cstr(s), eres(&r, cnarsese)), format!("parse[{}] {:?}", fm.name, s)),
+        }
         self.rep.evaluations += 1;
         self.rep.note_distinct(&format!("p{}|{}", fm.idx, s));
         r
